@@ -44,6 +44,8 @@ impl Labels {
         let rate = sampling_rate as f64 / (fperiod as f64 * 1e+7);
 
         for line in lines {
+            #[cfg(jbonsai_verif)]
+            crate::verif::yield_point(20);
             let line = line.as_ref();
 
             let mut split = line.splitn(3, ' ');
